@@ -37,6 +37,25 @@ fn special_images(v: &dyn Var, rng: &mut Rng) -> Vec<Vec<u8>> {
     for _ in 0..3 {
         out.push(image(v, rng));
     }
+    // cross-format confusion: a binary image that starts like the text form
+    if !(STRICT && v.nb() == 48) {
+        let mut t = image(v, rng);
+        t[0] = b'T';
+        t[1] = b'1';
+        if n > 4 {
+            t[2] = b'T';
+            t[3] = b'1';
+        }
+        if STRICT {
+            t[v.ck_len()] %= 170;
+        }
+        out.push(t);
+        let mut t: Vec<u8> = (0..n).map(|i| b"0123456789ABCDEFabcdef"[i % 22]).collect();
+        if STRICT {
+            t[v.ck_len()] %= 170;
+        }
+        out.push(t);
+    }
     // uniform images (every byte the same) with unequal nibbles
     for x in [0x1bu8, 0xe4, 0x5a, 0x07, rng.byte()] {
         let mut u = vec![x; n];
@@ -247,7 +266,12 @@ fn emit_fmt_sweep(out: &mut Out, v: &dyn Var, base: &[u8], pos: usize) {
     );
 }
 
-fn emit_parse(out: &mut Out, v: &dyn Var, entry: &str, mode: &str, s: &[u8]) {
+fn emit_parse(out: &mut Out, v: &dyn Var, entry: &str, mode: &str, text: &[u8]) {
+    // the text is handed over at a varying alignment (offset 0..3 of its backing storage)
+    let shift = (text.len() + text.first().copied().unwrap_or(0) as usize) % 4;
+    let mut backing = vec![0u8; text.len() + 4];
+    backing[shift..shift + text.len()].copy_from_slice(text);
+    let s = &backing[shift..shift + text.len()];
     let r = match entry {
         "bytes" => v.parse_bytes(s, mode),
         "with" => match std::str::from_utf8(s) {
@@ -436,10 +460,20 @@ pub fn run_c04(out: &mut Out, rng: &mut Rng, thorough: bool, only: Option<&str>)
         }
         // every truncation / extension of a prefixed and of a bare text, in auto-detect mode
         for base in [canon.clone(), hex_of(v, &image(v, rng), false)] {
-            for cut in 0..=(base.len() + 2) {
+            for cut in 0..=(base.len() + 4) {
                 let mut s = base.clone();
                 s.resize(cut, b'0');
-                emit_parse(out, v, "bytes", "None", &s);
+                for mode in ["None", "WithVersion", "Empty"] {
+                    emit_parse(out, v, "bytes", mode, &s);
+                }
+            }
+            // a longer text of another variant's length (cross-variant confusion)
+            for extra in [4usize, 64, 68, 108] {
+                let mut s = base.clone();
+                s.resize(base.len() + extra, b'A');
+                for mode in ["None", "WithVersion", "Empty"] {
+                    emit_parse(out, v, "bytes", mode, &s);
+                }
             }
         }
     });
@@ -679,8 +713,14 @@ pub fn run_c14(out: &mut Out, rng: &mut Rng, thorough: bool, only: Option<&str>)
         let img = image(v, rng);
         let h = v.hash(&img).unwrap();
         for (form, n) in [("bytes", v.size()), ("hex", v.len_str() - 2), ("hexp", v.len_str())] {
-            for l in 0..=(n + 64) {
+            let mut lens: Vec<usize> = (0..=(n + 64)).collect();
+            // far larger destinations (arena-style callers): around 2^8, 2^16 and 2^20
+            lens.extend([255usize, 256, 257, 65_535, 65_536, 65_537, (1 << 20) + 1]);
+            for l in lens {
                 if !thorough && l + 6 < n && l % 4 != 0 {
+                    continue;
+                }
+                if l > 70_000 && !(v.name() == "Normal" || thorough) {
                     continue;
                 }
                 let pre = rng.bytes(l);
@@ -880,6 +920,27 @@ pub fn run_c13(out: &mut Out, rng: &mut Rng, thorough: bool, only: Option<&str>)
                 for r in &forms {
                     emit_cmpstr(out, v, l, r, v.name() == "Normal" && rng.chance(1, 3));
                 }
+            }
+        }
+        // the pair that attains max_distance, as strings (both orders, both prefix styles)
+        {
+            let wa = vec![0u8; v.size()];
+            let mut wb = vec![0xffu8; v.size()];
+            for i in 0..v.ck_len() {
+                wb[i] = 1;
+            }
+            wb[v.ck_len()] = 128;
+            wb[v.ck_len() + 1] = 0x88;
+            for p in [true, false] {
+                let (sa, sb) = (hex_text_unchecked(v, &wa, p), hex_text_unchecked(v, &wb, !p));
+                emit_cmpstr(out, v, &sa, &sb, false);
+                emit_cmpstr(out, v, &sb, &sa, v.name() == "Normal");
+            }
+            for _ in 0..4 {
+                // far-apart random pairs: complement of every byte
+                let a = image(v, rng);
+                let b: Vec<u8> = a.iter().map(|x| !x).collect();
+                emit_cmpstr(out, v, &hex_text_unchecked(v, &a, true), &hex_text_unchecked(v, &b, true), false);
             }
         }
         // aliasing: the two operands are views of ONE buffer (same start address, different lengths;
